@@ -6,4 +6,4 @@ ASSUMPTIONS = ['leaf count < 2^64']
 
 
 def run(rep, rng, tier):
-    run_typelevel(rep, "C06", cases_c06, rng, tier, RULE, ASSUMPTIONS)
+    run_typelevel(rep, "C06", cases_c06, rng, tier, RULE, ASSUMPTIONS, allow_bv=True)
